@@ -50,7 +50,7 @@ type tierCfg struct {
 }
 
 var props = map[string]tierCfg{
-	"C07": {QuickRuns: 24000, QuickBudgetS: 40, ThoroughS: 600, Level: "exploration"},
+	"C07": {QuickRuns: 20000, QuickBudgetS: 40, ThoroughS: 600, Level: "exploration"},
 	"C09": {QuickRuns: 48000, QuickBudgetS: 40, ThoroughS: 600, Level: "exploration"},
 	"C10": {QuickRuns: 40000, QuickBudgetS: 40, ThoroughS: 600, Level: "exploration"},
 	"C14": {QuickRuns: 16000, QuickBudgetS: 40, ThoroughS: 600, Level: "exploration"},
